@@ -27,6 +27,7 @@ EXTENDS Naturals, Sequences, FiniteSets, TLC
 CONSTANTS Keys,       \* A: key names; "kH" seals the primary envelope, "kV" the second one
           AttKeys,    \* A: keys whose private half the attacker holds
           Fams,       \* A: record families; family f has domain f and payload type f
+          PrimaryFams,\* A: families of the primary envelope in this run (the driver splits the graph by it)
           Bodies,     \* A: record bodies (content besides the owner)
           MaxEdits,   \* A: attacker edits per behaviour
           Variant,    \* A: "code" = the real acceptance rule; other values are deliberately broken
@@ -127,7 +128,7 @@ Res(c, w) == ResV(Variant, c, w)
 BrokenA == {"nodomain", "notype", "nopayload", "nokey", "noowner", "anyenc", "lookalike"}
 
 InitA ==
-  \E f1 \in Fams, f2 \in Fams :
+  \E f1 \in PrimaryFams, f2 \in Fams :
     LET w1 == Sealed("kH", f1, "kH", 1)
         w2 == Sealed("kV", f2, "kV", 2)
     IN /\ st = [part |-> "A", wire |-> w1, second |-> w2, edits |-> 0,
